@@ -12,7 +12,15 @@
      make([]T, n)                          zrepeat zero n
      f(args) / w.Write(x) statements of a trace target   RgCall args / RgOut x  (rg_ev, run_trace)
      x / y, x % y on int                   Z.quot, Z.rem (truncation toward zero)
-     x << y, x | y, x & y                  Z.shiftl, Z.lor, Z.land *)
+     x << y, x | y, x & y                  Z.shiftl, Z.lor, Z.land
+     a[lo:hi]                              zslice a lo hi
+     for .. { f(args) } in a trace target  flat_map (fun i => events of the body) (zrange lo hi | the list)
+     loops over arrays of <= 3 elements, loops with constant bounds left by return / break: unrolled
+   The second half of the file holds the lemmas and tactics the GenEq* files use to compare a generated
+   definition with the model THROUGH A NORMAL FORM (z_cases: integer code by deciding every comparison with
+   lia; table_loop: a table filled by index or by append; split_pair_lets / trace_norm / eval_znth: event
+   lists and corner lists computed and compared element by element), so that equivalent ways of writing the
+   Go code leave the equality provable while any change of a value, an order or a condition does not. *)
 From Coq Require Import ZArith List Bool Lia.
 Import ListNotations.
 Open Scope Z_scope.
@@ -95,6 +103,14 @@ Lemma zfor_collect {A} lo hi (body : list A -> Z -> list A) (q : A -> bool) (g :
   zfor lo hi body [] = filter q (map g (zrange lo hi)).
 Proof. intros H. unfold zfor. now rewrite (fold_collect body q g H). Qed.
 
+(* the same loop written with the test the other way round:  if drop t { continue }; result = append(result, t) *)
+Lemma zfor_collect_not {A} lo hi (body : list A -> Z -> list A) (q : A -> bool) (g : Z -> A) :
+  (forall res i, body res i = if q (g i) then res else res ++ [g i]) ->
+  zfor lo hi body [] = filter (fun t => negb (q t)) (map g (zrange lo hi)).
+Proof.
+  intros H. apply zfor_collect. intros res i. rewrite H. now destruct (q (g i)).
+Qed.
+
 (* the filling loop:  for i := range a { a[i] = g i }  on a slice of length n *)
 Lemma zfor_fill {A} (n : nat) (body : list A -> Z -> list A) (g : Z -> A) (z : A) :
   (forall l i, body l i = zupd l i (g i)) ->
@@ -110,6 +126,28 @@ Proof.
     - rewrite <- app_assoc. cbn [app]. subst k. symmetry. apply upd_nth_app. }
   exact (G 0%nat n [] eq_refl).
 Qed.
+
+(* the same with the bound and the initial slice written in any way that comes to n and n zero values *)
+Lemma zfor_fill_gen {A} (n : nat) (hi : Z) (body : list A -> Z -> list A) (g : Z -> A) (z : A) (init : list A) :
+  hi = Z.of_nat n -> init = repeat z n -> (forall l i, body l i = zupd l i (g i)) ->
+  zfor 0 hi body init = map g (zrange 0 (Z.of_nat n)).
+Proof. intros -> -> H. now apply zfor_fill. Qed.
+
+(* the appending loop:  for i := 0; i < n; i++ { a = append(a, g i) }  on an empty slice *)
+Lemma zfor_append_gen {A} (n : nat) (hi : Z) (body : list A -> Z -> list A) (g : Z -> A) (init : list A) :
+  hi = Z.of_nat n -> init = [] -> (forall l i, body l i = l ++ [g i]) ->
+  zfor 0 hi body init = map g (zrange 0 (Z.of_nat n)).
+Proof.
+  intros -> -> H. unfold zfor. generalize (zrange 0 (Z.of_nat n)). intros l.
+  change (map g l) with ([] ++ map g l). generalize (@nil A).
+  induction l as [|i l IH]; intros acc; cbn [fold_left map]; [now rewrite app_nil_r|].
+  rewrite H, IH, <- app_assoc. reflexivity.
+Qed.
+
+Lemma zlen_zrepeat {A} (z : A) (n : nat) : zlen (zrepeat z (Z.of_nat n)) = Z.of_nat n.
+Proof. unfold zlen, zrepeat. now rewrite repeat_length, Nat2Z.id. Qed.
+Lemma zrepeat_nat {A} (z : A) (n : nat) : zrepeat z (Z.of_nat n) = repeat z n.
+Proof. unfold zrepeat. now rewrite Nat2Z.id. Qed.
 
 (* bit tests:  m & (1 << i) != 0 *)
 Lemma land_bit_test m i : 0 <= i -> negb (Z.land m (Z.shiftl 1 i) =? 0) = Z.testbit m i.
@@ -149,3 +187,102 @@ Ltac split_ifs s :=
   same_tac s.
 Tactic Notation "by_cases" ident(s) := split_ifs s.
 
+
+(* ------------------------------------------------------------------ slices *)
+(* a[lo:hi]: the elements lo .. hi-1 (out-of-range bounds panic in Go; here they are clipped) *)
+Definition zslice {A : Type} (l : list A) (lo hi : Z) : list A := firstn (Z.to_nat (hi - lo)) (skipn (Z.to_nat lo) l).
+
+Lemma nth_firstn_lt {A} (n i : nat) (l : list A) d : (i < n)%nat -> nth i (firstn n l) d = nth i l d.
+Proof.
+  revert i l. induction n as [|n IH]; intros i l H; [lia|].
+  destruct l as [|x l]; [reflexivity|]. destruct i as [|i]; cbn; [reflexivity|]. apply IH. lia.
+Qed.
+
+Lemma nth_skipn_add {A} (n i : nat) (l : list A) d : nth i (skipn n l) d = nth (n + i) l d.
+Proof.
+  revert l. induction n as [|n IH]; intros l; [reflexivity|].
+  destruct l as [|x l]; cbn [skipn]; [now destruct i|]. apply IH.
+Qed.
+
+Lemma znth_zslice {A} (l : list A) lo hi i d :
+  0 <= lo -> 0 <= i < hi - lo -> znth i (zslice l lo hi) d = znth (lo + i) l d.
+Proof.
+  intros Hlo Hi. unfold znth, zslice.
+  destruct (Z.ltb_spec i 0); [lia|]. destruct (Z.ltb_spec (lo + i) 0); [lia|].
+  rewrite nth_firstn_lt by lia. rewrite nth_skipn_add. f_equal. lia.
+Qed.
+
+(* ------------------------------------------------------------------ more tactics of the GenEq* files *)
+
+(* integer code: split on every comparison of integers with its specification, discard the impossible
+   combinations by linear arithmetic and compare what is left (booleans by computation, tuples / lists of
+   integers component by component).  Two pieces of code that decide the same thing by different chains of
+   comparisons (nested ifs, early returns, a loop over the components) are identified by this. *)
+Ltac z_split :=
+  repeat match goal with
+         | |- context [Z.gtb ?a ?b] => rewrite (Z.gtb_ltb a b)
+         | |- context [Z.geb ?a ?b] => rewrite (Z.geb_leb a b)
+         end;
+  repeat (match goal with
+          | |- context [Z.ltb ?a ?b] => destruct (Z.ltb_spec a b)
+          | |- context [Z.leb ?a ?b] => destruct (Z.leb_spec a b)
+          | |- context [Z.eqb ?a ?b] => destruct (Z.eqb_spec a b)
+          end; try (exfalso; lia); cbn [negb andb orb]).
+Ltac z_decide s :=
+  cbv zeta; z_split;
+  first [ reflexivity
+        | repeat match goal with
+                 | |- (_, _) = (_, _) => f_equal
+                 | |- _ :: _ = _ :: _ => f_equal
+                 end; lia
+        | fail 1 s ": the definition generated from the current Go source differs from the hand-written model" ].
+Tactic Notation "z_cases" ident(s) := z_decide s.
+
+(* let '(a, b) := L in body  with L a loop / a call: the components by projection *)
+Ltac split_pair_lets :=
+  repeat match goal with
+         | |- context [match ?L with pair _ _ => _ end] => rewrite (surjective_pairing L); cbv beta iota
+         end.
+
+(* a table built by a loop: `for i := range t { t[i] = g i }` on make([]T, n), or `t = append(t, g i)` on an
+   empty slice, equals map g [0 .. n-1] *)
+Ltac table_loop_tac n G s :=
+  match goal with
+  | |- @zfor _ 0%Z ?hi ?body ?init = _ =>
+    apply eq_trans with (map G (zrange 0 (Z.of_nat n)));
+    [ first [ eapply (zfor_fill_gen n hi body G _ init);
+              [ rewrite ?zlen_zrepeat; reflexivity | rewrite ?zrepeat_nat; reflexivity | intros; reflexivity ]
+            | apply (zfor_append_gen n hi body G init);
+              [ rewrite ?zlen_zrepeat; reflexivity | reflexivity | intros; reflexivity ]
+            | fail 2 s ": the loop does not build the table (t[i] = g i for i < n on make([]T, n), or t = append(t, g i) on an empty slice, g as in the model)" ]
+    | ]
+  end.
+
+Tactic Notation "table_loop" constr(n) constr(G) ident(s) := table_loop_tac n G s.
+
+(* closed index ranges and reads at closed indices are computed *)
+Ltac eval_ranges :=
+  repeat match goal with
+         | |- context [zrange ?a ?b] =>
+           let l := eval vm_compute in (zrange a b) in
+           lazymatch l with
+           | nil => change (zrange a b) with l
+           | cons _ _ => change (zrange a b) with l
+           end
+         end.
+Ltac eval_znth :=
+  repeat match goal with
+         | |- context [@znth ?A ?i ?l ?d] =>
+           lazymatch i with
+           | Z0 => idtac
+           | Zpos ?p => lazymatch p with context [_ _] => idtac | xH => idtac end
+           end;
+           let n := eval vm_compute in (Z.to_nat i) in
+           lazymatch l with
+           | cons _ _ => change (@znth A i l d) with (@nth A n l d)
+           end
+         end;
+  cbn [nth].
+
+(* event lists: (e :: l) ++ l', l ++ [] *)
+Ltac trace_norm := eval_ranges; cbn [app flat_map]; eval_znth; rewrite ?app_nil_r; cbn [app flat_map].
